@@ -117,6 +117,14 @@ def case(rng):
         forms = ["(import (verif host))", "(%s (lambda (e) (tick e) (* e 2)) %s)" % (p, q(l))]
         want = "V " + canon([y * 2 for y in l]) if p == "map" else ("V <void>" if True else "")
         return forms, ["N", want, ("T", [("i:%d" % y) for y in l])]
+    if p in ("fold-left", "fold-right") and rng.random() < 0.25:
+        # a sequence that is NOT a list (an improper list, a non-list): the minischeme definitions reach (car tail) - an error, never a
+        # value; fold-left has by then applied the procedure to the elements before the tail, in order, fold-right to none
+        l = [rng.randrange(0, 9) for _ in range(rng.randrange(0, 4))]
+        tail = rng.choice(["5", "#t", '"s"', "(vector 1)"])
+        seq = "(cons %s %s)" % (" (cons ".join(str(y) for y in l), tail) + ")" * (len(l) - 1) if l else tail
+        forms = ["(import (verif host))", "(%s (lambda (e acc) (tick e) (cons e acc)) '() %s)" % (p, seq)]
+        return forms, ["N", "E type", ("T", ["i:%d" % y for y in l] if p == "fold-left" else [])]
     if p in ("fold-left", "fold-right"):
         l = [rng.randrange(0, 9) for _ in range(rng.randrange(0, 6))]
         forms = ["(import (verif host))", "(%s (lambda (e acc) (tick e) (cons e acc)) '() %s)" % (p, q(l))]
